@@ -232,20 +232,20 @@ func (p *Pool) VPut(site int, x any) {
 	rt.Emit(site, unsafe.Pointer(p), "pool", "put", rt.FmtVal(x), "")
 }
 
-// Once
-type Once struct{ done bool }
+// Once shadows sync.Once: the first caller runs f under the Once's mutex, every other caller blocks on that mutex until
+// f has returned (which is what sync.Once guarantees); the events are the lock / unlock of that mutex.
+type Once struct {
+	m    RWMutex
+	done bool
+}
 
-func (o *Once) Do(f func()) {
-	if rt.Dead() {
-		if !o.done {
-			o.done = true
-			f()
-		}
-		return
-	}
-	rt.Point("once")
+func (o *Once) Do(f func()) { o.VDo(-1, f) }
+
+func (o *Once) VDo(site int, f func()) {
+	o.m.VLock(site)
+	defer o.m.VUnlock(site)
 	if !o.done {
-		o.done = true
+		defer func() { o.done = true }()
 		f()
 	}
 }
